@@ -12,5 +12,6 @@ import (
 	_ "verif/harness/props/c10"
 	_ "verif/harness/props/c11"
 	_ "verif/harness/props/c12"
+	_ "verif/harness/props/c13"
 	_ "verif/harness/props/c15"
 )
